@@ -87,6 +87,39 @@ func Encrypt(recips []age.Recipient, plain []byte, armored bool, segs []int) (ou
 	return buf.Bytes(), nil
 }
 
+// EncryptCopy is Encrypt with the plaintext handed over by io.Copy from src (which uses the writer's ReadFrom, if it
+// has one) instead of Write calls.
+func EncryptCopy(recips []age.Recipient, src io.Reader, armored bool) (out []byte, err error) {
+	defer func() {
+		if r := recover(); r != nil {
+			err = fmt.Errorf("PANIC: %v", r)
+		}
+	}()
+	var buf bytes.Buffer
+	var dst io.Writer = &buf
+	var aw io.WriteCloser
+	if armored {
+		aw = armor.NewWriter(&buf)
+		dst = aw
+	}
+	w, err := age.Encrypt(dst, recips...)
+	if err != nil {
+		return nil, err
+	}
+	if _, err := io.Copy(w, src); err != nil {
+		return nil, err
+	}
+	if err := w.Close(); err != nil {
+		return nil, err
+	}
+	if aw != nil {
+		if err := aw.Close(); err != nil {
+			return nil, err
+		}
+	}
+	return buf.Bytes(), nil
+}
+
 // DecResult is the observable result of decrypting a whole buffer.
 type DecResult struct {
 	DecryptErr error // error returned by age.Decrypt (reader nil then)
